@@ -488,6 +488,45 @@ func runC01(c *Ctx) {
 	}
 
 	// ---- R10 numeric text is read the same way everywhere
+	c.rule("C01-R11", "ALIAS: arrays are values to a program: `append(xs, x)` and `xs + [x]` yield a new array and leave every other array alone. In pkg/interpreter no Go append has as its base a slice obtained from a program value as it is (the result of asserting an evaluated value to []interface{}): such a slice may have spare capacity (a JSON-decoded array, an array built by an earlier append), and two results built from one base then share the slot after its end - `$ a = append(xs, 5); $ b = append(xs, 6)` leaves a == b, and a module-level list appended to by two requests is one slot written by both. The base is a fresh copy (make + copy, or append onto an empty slice)")
+	{
+		n := 0
+		for _, fn := range c.srcFuncs(interpPkg) {
+			k := 0
+			eachInstr(fn, func(_ *ssa.BasicBlock, _ int, ins ssa.Instruction) {
+				call, ok := ins.(*ssa.Call)
+				if !ok || callName(call) != "builtin.append" || len(call.Call.Args) < 2 {
+					return
+				}
+				sl, ok := call.Call.Args[0].Type().Underlying().(*types.Slice)
+				if !ok || !dynIface(sl.Elem()) {
+					return
+				}
+				n++
+				fromProgram := derivesFromOnly(call.Call.Args[0], func(x ssa.Value) (bool, bool) {
+					switch y := x.(type) {
+					case *ssa.Extract:
+						_, isTA := y.Tuple.(*ssa.TypeAssert)
+						return true, isTA && y.Index == 0
+					case *ssa.TypeAssert:
+						return true, true
+					case *ssa.MakeSlice, *ssa.Const, *ssa.Slice, *ssa.Call, *ssa.Alloc, *ssa.Parameter, *ssa.FreeVar, *ssa.Lookup, *ssa.Field, *ssa.MakeInterface:
+						return true, false
+					}
+					return false, false
+				})
+				if !fromProgram {
+					return
+				}
+				// only where the result becomes a program value again (is returned, stored, bound)
+				k++
+				c.ob("C01-R11", fnKey(fn)+"#append-onto-a-program-array-"+itoa(k), call.Pos(), false, "a Go append is made directly onto the slice of a program array: when that array has spare capacity the new element is written into storage it shares with every other array built from it - two appends to one list give two equal results, and requests appending to a module-level list overwrite each other's element")
+			})
+		}
+		c.Sites["C01-R11#appends-on-value-slices"] = n
+		c.ob("C01-R11", interpPkg+"#appends-examined", token.NoPos, n >= 10, "fewer than 10 appends on []interface{} found in pkg/interpreter")
+	}
+
 	c.rule("C01-R10", "SIB: every conversion of program or request text to an integer in the engines (strconv.ParseInt / ParseUint in pkg/interpreter and pkg/vm: the parseInt builtin, typed and untyped query parameters) passes the same constant base and width: parseInt(\"010\") and `?n=010` for `? n: int` denote the same number; base 0 would read a zero-padded decimal string as octal (\"02134\" = 1116) and accept 0x.. and 1_000 in one place only")
 	{
 		type site struct {
